@@ -22,6 +22,7 @@ ASSUMPTIONS = ["the window holds every answer the node transmitted to that origi
                "error answers, watchdog answers), most recent N",
                "a repeat of a request that is still pending (not yet answered) is not a duplicate of an answered request"]
 TIMEOUT = {"quick": 900, "thorough": 3600}
+SCTP_CLONES = {"quick": ['rand3'], "thorough": ['rand10', 'rand11']}
 ORIGINS = ["o1.verif.example", "o2.verif.example"]
 E2E = [0x111, 0x222, 0x333]
 
